@@ -7,7 +7,7 @@ META = {
     "engine": "RpcLifecycle",
     "level": "model_checking",
     "text": "RpcLifecycle.tla models one RPC walking through its client-side phases (name resolution, picker, stream quota, HEADERS "
-            "sent, write quota, receive - at a message boundary or in the middle of a message - / server handler; unary, bidi and client streaming; grpc.EnableTracing on/off at the write-quota point) that blocks for ever at a chosen blocking point, optionally after a delay "
+            "sent, write quota, receive - at a message boundary, in the middle of a message, or in the retry backoff after a trailers-only UNAVAILABLE attempt - / server handler; unary, bidi and client streaming; grpc.EnableTracing on/off at the write-quota point) that blocks for ever at a chosen blocking point, optionally after a delay "
             "in an earlier phase, with a deadline and/or a cancellation instant; TLC checks for every scenario that the call returns "
             "exactly at the event instant with DEADLINE_EXCEEDED / CANCELLED, that the timeout seen by the server exists iff the "
             "client has a deadline and lies in [remaining at send, remaining + one grpc-timeout unit), and that the handler's context "
